@@ -2210,11 +2210,19 @@ class AstEval:
                 #
                 # find unbound names from the body of the function or class
                 #
-                inner_global, inner_names, inner_local = set(), set(), set()
+                # default values / base classes are evaluated in the enclosing scope as well
+                if cls_name == "ClassDef":
+                    outer_exprs = arg.bases + [kw.value for kw in arg.keywords]
+                else:
+                    outer_exprs = arg.args.defaults + [dflt for dflt in arg.args.kw_defaults if dflt is not None]
+                for expr in outer_exprs:
+                    await self.get_names_set(expr, names, nonlocal_names, global_names, local_names)
+                inner_global, inner_names, inner_local, inner_nonlocal = set(), set(), set(), set()
                 for child in arg.body:
-                    await self.get_names_set(child, inner_names, None, inner_global, inner_local)
+                    await self.get_names_set(child, inner_names, inner_nonlocal, inner_global, inner_local)
                 for name in inner_names:
-                    if name not in inner_local and name not in inner_global:
+                    # a name the inner scope binds itself is not ours, unless it declares it nonlocal
+                    if (name not in inner_local or name in inner_nonlocal) and name not in inner_global:
                         names.add(name)
                 return
             elif cls_name == "Delete":
